@@ -1,5 +1,31 @@
-// stub: check for C11 not built yet
+use fsim::gen::{self, Focus, Prop};
+use vcore::Level;
+
+const RULE: &str = "same history type as C10, weighted towards configuration variety: roll by day/hour/minute, max_files 1-5, size limits from 0 to 1 GiB, reuse on/off, prefixes {log, app, my.app, 'l og', 'lög', log2} x extensions, clock trajectories with zero, backward and period-crossing steps starting near period boundaries, restarts, sender-side overflow, and up to 5 pre-existing directory entries drawn from 12 name shapes (own-looking files of earlier/future periods, the template file itself, sibling sets whose prefix or extension extends ours, unrelated files); usually fault free (1 in 7 histories carries IO faults). Oracle from the op log: one file per batch; created names are prefix.period.counter.id.ext with the period/counter of the clock reading; after an acknowledged batch in the same process the next batch uses the same file iff period unchanged and size+batch <= limit, else a new file; reuse only with reuse on; own-set file count <= max_files after every acknowledged batch (unless a delete/listing faulted); deletions take the smallest name; names created later sort later while the clock never steps back; every opened/created/deleted path is an own-set name by the strict grammar and foreign files are byte-identical at the end; no panic. Non-trivial = at least one roll and (restart or foreign sibling present or backward clock).";
+
 fn main() {
-    eprintln!("C11: check not built yet");
-    std::process::exit(2);
+    vcore::run(
+        "C11",
+        Level::FaultEnumeration,
+        RULE,
+        &[
+            "filesystem model: written bytes are visible at once and durable up to the length at the last successful sync_all; a crash keeps each file's synced prefix plus a generated prefix of its unsynced suffix (the crash model the property states); directory-entry durability (sync_parent) is recorded but not judged",
+            "the worker is driven directly through hook H2 (emit_file::verif::Worker::on_batch) with the retry policy of emit_batcher re-implemented by the harness; the end-to-end path through the real channel is covered by C07",
+            "batches that fail in flush/sync are not acknowledged and not retried (documented); nothing is claimed about them",
+            "event bodies never contain separator bytes (emit's writers guarantee this for the default JSON writer)",
+            "non-repeating pseudo-random file ids; a virtual clock under harness control",
+        ],
+        |s| {
+            s.require("size-roll", 5000);
+            s.require("time-roll", 5000);
+            s.require("max_files=1", 5000);
+            s.require("prefix-related-sibling", 5000);
+            s.require("backward-clock", 3000);
+            s.require("restart", 5000);
+            s.require("sender-overflow", 2000);
+            s.gen("histories", s.n(400_000, 12_000_000), || gen::hist(Focus::Config), |h, cx| gen::check(h, Prop::C11, cx));
+            let bases = s.sample("single-fault-bases", gen::hist(Focus::Config), s.n(400, 12_000) as usize);
+            s.enumerate("single-fault-exhaustive", bases.into_iter().flat_map(gen::single_fault_placements), |h, cx| gen::check(h, Prop::C11, cx));
+        },
+    )
 }
